@@ -218,7 +218,7 @@ theorem copy_final (hcl : Closed objs0 N0) (j : Nat) (st st2 st5 : State) (P : L
           cases h1
       · rw [hshared (by simp [hk, Kind.copyItems])]
         exact d4
-    · rw [hshared (by rcases hk with hk | hk <;> simp [hk, Kind.copyItems])]
+    · rw [hshared (by simp [hk, Kind.copyItems])]
       exact c4 hk
     · rw [hshared (by simp [hk, Kind.copyItems])]
       exact fun c hc => ImmLeaf_ext objs0 st6.objs hk06 c (c5 hk c hc)
